@@ -2,7 +2,11 @@
 (* Validates recorded (library, page, observed output) triples of the real  *)
 (* expand() against the reference Eval of Transclusion.tla.  The batch file *)
 (* (env TRACE_FILE) is a JSON array of [lib, page, out] with `out` the      *)
-(* canonical tokenisation of the returned string.                           *)
+(* canonical tokenisation of the returned string.  Next to the reading of   *)
+(* the statement (parameter names are trimmed) the reading of the          *)
+(* implementation (interior blank runs of a name folded too) is evaluated; *)
+(* a case is reported when the output differs from the first or when the   *)
+(* two readings differ (the harness decides: VIOLATION only if both agree). *)
 EXTENDS Transclusion, Json, IOUtils
 
 Cases == JsonDeserialize(IOEnv.TRACE_FILE)
@@ -14,8 +18,10 @@ Next ==
   /\ i <= Len(Cases)
   /\ LET c == Cases[i]
          ideal == Expand(c.page, c.lib, {})
-     IN bad' = IF c.out = ideal THEN bad
-               ELSE Append(bad, [i |-> i, expected |-> ideal, asis |-> Expand(c.page, c.lib, KnownDevs)])
+         fold == Expand(c.page, c.lib, {NameFold})
+     IN bad' = IF c.out = ideal /\ fold = ideal THEN bad
+               ELSE Append(bad, [i |-> i, expected |-> ideal, asis |-> Expand(c.page, c.lib, KnownDevs),
+                                 fold |-> fold, asisFold |-> Expand(c.page, c.lib, KnownDevs \cup {NameFold})])
   /\ i' = i + 1
 Spec == Init /\ [][Next]_<<i, bad>>
 Verdict == (i = Len(Cases) + 1) => PrintT(<<"VERDICT", ToJson([consumed |-> i - 1, bad |-> bad])>>)
